@@ -478,8 +478,8 @@ fn push(b: script::Builder, data: &[u8]) -> script::Builder {
   b.push_slice(PushBytesBuf::try_from(data.to_vec()).unwrap())
 }
 
-fn envelope_witness(pointer: Option<u64>) -> Witness {
-  let mut b = script::Builder::new().push_opcode(opcodes::OP_FALSE).push_opcode(opcodes::all::OP_IF);
+fn envelope_script(mut b: script::Builder, pointer: Option<u64>, parents: &[InscriptionId]) -> script::Builder {
+  b = b.push_opcode(opcodes::OP_FALSE).push_opcode(opcodes::all::OP_IF);
   b = push(b, b"ord");
   b = push(b, &[1]);
   b = push(b, b"text/plain;charset=utf-8");
@@ -491,9 +491,24 @@ fn envelope_witness(pointer: Option<u64>) -> Witness {
     b = push(b, &[2]);
     b = push(b, &v);
   }
+  for id in parents {
+    let mut v = id.txid.to_byte_array().to_vec();
+    let idx = id.index.to_le_bytes();
+    let mut n = 4;
+    while n > 0 && idx[n - 1] == 0 {
+      n -= 1;
+    }
+    v.extend_from_slice(&idx[..n]);
+    b = push(b, &[3]);
+    b = push(b, &v);
+  }
   b = b.push_opcode(opcodes::OP_FALSE);
   b = push(b, b"witness");
-  let script = b.push_opcode(opcodes::all::OP_ENDIF).into_script();
+  b.push_opcode(opcodes::all::OP_ENDIF)
+}
+
+fn envelope_witness(pointer: Option<u64>) -> Witness {
+  let script = envelope_script(script::Builder::new(), pointer, &[]).into_script();
   Witness::from_slice(&[script.into_bytes(), Vec::new()])
 }
 
@@ -523,35 +538,33 @@ fn spend(inputs: Vec<(OutPoint, Witness)>, value: u64) -> Transaction {
   }
 }
 
-/// regtest, sat index on: inscribe on coinbase(2):0 -> t1; then a transaction with inputs
-/// [coinbase(1):0 carrying an envelope with pointer 5_000_000_000, t1:0]
-fn witness_scenario(out: &mut Streams, dist: &mut Dist, scratch: &Path, prop: &str) {
-  const COIN: u64 = 5_000_000_000;
+const COIN: u64 = 5_000_000_000;
+
+fn add_block(node: &Node, g: &mut Gen, txs: Vec<Transaction>) {
+  let h = node.height() + 1;
+  let mut txdata = vec![coinbase(h, COIN)];
+  txdata.extend(txs);
+  let block = Block { header: make_header(node.tip(), h, h), txdata };
+  g.absorb(&block, h);
+  node.push_block(block);
+}
+
+fn cb_out(node: &Node, h: u32) -> OutPoint {
+  OutPoint { txid: node.block_at(h).txdata[0].compute_txid(), vout: 0 }
+}
+
+/// a hand-built chain on the real indexer, described to the model through the full block
+/// protocol, followed by one probe call
+fn run_scenario(name: &str, out: &mut Streams, dist: &mut Dist, scratch: &Path, prop: &str, build: &mut dyn FnMut(&Node, &mut Gen)) {
   let node = Node::new("regtest", scratch);
   let flags = Flags { sats: true, addr: false, tx: false, ins: true, runes: false };
   let ix = env::open(&node, scratch, flags, &[], false);
   let mut g = Gen::new(Rng::new(0), node.core.state().network);
   g.absorb(&node.block_at(0), 0);
-  let mut add = |g: &mut Gen, txs: Vec<Transaction>| {
-    let h = node.height() + 1;
-    let mut txdata = vec![coinbase(h, COIN)];
-    txdata.extend(txs);
-    let block = Block { header: make_header(node.tip(), h, h), txdata };
-    g.absorb(&block, h);
-    node.push_block(block);
-  };
-  add(&mut g, vec![]);
-  add(&mut g, vec![]);
-  let cb1 = OutPoint { txid: node.block_at(1).txdata[0].compute_txid(), vout: 0 };
-  let cb2 = OutPoint { txid: node.block_at(2).txdata[0].compute_txid(), vout: 0 };
-  let t1 = spend(vec![(cb2, envelope_witness(None))], COIN);
-  let t1_out = OutPoint { txid: t1.compute_txid(), vout: 0 };
-  add(&mut g, vec![t1]);
-  let t2 = spend(vec![(cb1, envelope_witness(Some(COIN))), (t1_out, Witness::new())], 2 * COIN);
-  add(&mut g, vec![t2]);
+  build(&node, &mut g);
   match env::update(&ix, Duration::from_secs(120)) {
     UpdateOutcome::Ok => {}
-    _ => panic!("witness scenario: index update failed"),
+    _ => panic!("{name} scenario: index update failed"),
   }
   out.emit("cfg sats=1 addr=0 tx=0 ins=1 runes=0 first_ins=0 jubilee=110 first_rune=0", "ok");
   for h in 0..=node.height() {
@@ -567,7 +580,76 @@ fn witness_scenario(out: &mut Streams, dist: &mut Dist, scratch: &Path, prop: &s
   let mut ps = PState::default();
   let mut rng = Rng::new(0);
   probe(&mut ps, prop, &ctx, &mut rng, out, dist);
-  dist.hit("witness_scenario");
+  dist.hit(&format!("scenario_{name}"));
+}
+
+/// C06 finding witness.  regtest, sat index on: inscribe on coinbase(2):0 -> t1; then a transaction
+/// with inputs [coinbase(1):0 carrying an envelope with pointer 5_000_000_000, t1:0]
+fn witness_scenario(out: &mut Streams, dist: &mut Dist, scratch: &Path, prop: &str) {
+  run_scenario("witness", out, dist, scratch, prop, &mut |node, g| {
+    add_block(node, g, vec![]);
+    add_block(node, g, vec![]);
+    let t1 = spend(vec![(cb_out(node, 2), envelope_witness(None))], COIN);
+    let t1_out = OutPoint { txid: t1.compute_txid(), vout: 0 };
+    add_block(node, g, vec![t1]);
+    let t2 = spend(vec![(cb_out(node, 1), envelope_witness(Some(COIN))), (t1_out, Witness::new())], 2 * COIN);
+    add_block(node, g, vec![t2]);
+  });
+}
+
+/// C07: randomized parent/child families.  P and Q are inscribed; a child transaction spends P's
+/// output (never Q's) next to a cardinal input and names parents drawn from {P (really spent), P
+/// again, Q (exists but not spent: a forgery), itself, a later envelope, an earlier envelope, an
+/// absent id}; a grandchild transaction then spends the family output.
+fn family_scenario(out: &mut Streams, dist: &mut Dist, scratch: &Path, prop: &str, rng: &mut Rng) {
+  let mut d = Dist::default();
+  run_scenario("family", out, &mut d, scratch, prop, &mut |node, g| {
+    for _ in 0..4 {
+      add_block(node, g, vec![]);
+    }
+    let a = spend(vec![(cb_out(node, 1), envelope_witness(None))], COIN);
+    let a2 = spend(vec![(cb_out(node, 2), envelope_witness(None))], COIN);
+    let p = InscriptionId { txid: a.compute_txid(), index: 0 };
+    let q = InscriptionId { txid: a2.compute_txid(), index: 0 };
+    let a_out = OutPoint { txid: p.txid, vout: 0 };
+    add_block(node, g, vec![a, a2]);
+    // child transaction
+    let family_first = rng.chance(1, 2);
+    let ins = if family_first { vec![a_out, cb_out(node, 3)] } else { vec![cb_out(node, 3), a_out] };
+    let mut b = spend(ins.iter().map(|o| (*o, Witness::new())).collect(), 2 * COIN);
+    let btxid = b.compute_txid();
+    let absent = InscriptionId { txid: Txid::from_byte_array([9; 32]), index: 0 };
+    let e_in = rng.below(2) as usize;
+    let nenv = 1 + rng.below(3) as u32;
+    let mut sb = script::Builder::new();
+    for k in 0..nenv {
+      let mut parents = Vec::new();
+      for _ in 0..rng.below(4) {
+        parents.push(match rng.below(8) {
+          0 | 1 | 2 => p,
+          3 => q,
+          4 => InscriptionId { txid: btxid, index: k },
+          5 => InscriptionId { txid: btxid, index: k + 1 },
+          6 => InscriptionId { txid: btxid, index: 0 },
+          _ => absent,
+        });
+      }
+      let ptr = if rng.chance(1, 3) { Some(rng.below(2 * COIN)) } else { None };
+      sb = envelope_script(sb, ptr, &parents);
+    }
+    b.input[e_in].witness = Witness::from_slice(&[sb.into_script().into_bytes(), Vec::new()]);
+    assert_eq!(b.compute_txid(), btxid);
+    add_block(node, g, vec![b]);
+    // grandchild: spends the family output, names P, a child and Q
+    let mut c = spend(vec![(OutPoint { txid: btxid, vout: 0 }, Witness::new())], 2 * COIN);
+    let parents = [p, InscriptionId { txid: btxid, index: rng.below(u64::from(nenv)) as u32 }, q, p];
+    let n = 1 + rng.below(4) as usize;
+    c.input[0].witness = Witness::from_slice(&[envelope_script(script::Builder::new(), None, &parents[..n]).into_script().into_bytes(), Vec::new()]);
+    add_block(node, g, vec![c]);
+  });
+  for (k, v) in d.0 {
+    dist.add(&k, v);
+  }
 }
 
 fn concat(a: &Path, b: &Path, to: &Path) {
@@ -580,6 +662,8 @@ fn main() {
   let args = Args::parse();
   let prop = args.get("prop").unwrap_or("all").to_string();
   let with_witness = prop == "all" || prop == "C06";
+  let with_family = prop == "all" || prop == "C07";
+  let families: u64 = args.get("families").map(|v| v.parse().unwrap()).unwrap_or(6);
   std::fs::create_dir_all(&args.out).unwrap();
   let scratch = args.out.join("wscratch");
   std::fs::create_dir_all(&scratch).unwrap();
@@ -595,9 +679,17 @@ fn main() {
   }
   let wdir = args.out.join("w");
   let mut wdist = Dist::default();
-  if with_witness {
+  if with_witness || with_family {
     let mut out = Streams::create(&wdir);
-    witness_scenario(&mut out, &mut wdist, &scratch, &prop);
+    if with_witness {
+      witness_scenario(&mut out, &mut wdist, &scratch, &prop);
+    }
+    if with_family {
+      let mut frng = Rng::new(args.seed ^ 0xfa31);
+      for _ in 0..families {
+        family_scenario(&mut out, &mut wdist, &scratch, &prop, &mut frng);
+      }
+    }
     out.finish();
   }
   let _ = std::fs::remove_dir_all(&scratch);
@@ -614,7 +706,7 @@ fn main() {
     }
     probe(&mut ps, &prop, ctx, rng, out, dist);
   });
-  if with_witness {
+  if with_witness || with_family {
     concat(&wdir.join("ops.txt"), &mdir.join("ops.txt"), &args.out.join("ops.txt"));
     concat(&wdir.join("impl.out"), &mdir.join("impl.out"), &args.out.join("impl.out"));
   } else {
